@@ -494,8 +494,10 @@ func (c *client) executeReadLoop(cborReader *cbor.Decoder) {
 	defer c.wg.Done()
 	// Loop and get all messages
 	// The message is generic, so we must find the type and decode the full message next.
-	var runtimeMessage DecodedRuntimeMessage
 	for {
+		// A fresh value for every message: fields that are missing from a message must not keep the values
+		// of the previous one.
+		var runtimeMessage DecodedRuntimeMessage
 		vh("c.decode.pre")
 		if err := cborReader.Decode(&runtimeMessage); err != nil {
 			vh("c.decode", "err", err)
